@@ -55,12 +55,38 @@ def cond_tol(terms, result, eps=2.0 ** -23):
     return 64 * eps * s + 1e-6 * abs(float(result)) + 1e-7
 
 
-def one_case(ctx, k):
-    rs = np.random.RandomState(np_seed(ctx.sub_rng('net', k)))
+def offset_root(rs):
+    """continuous leaves far from the origin with narrow supports (measurements such as 30000 +- 0.01): the moments of such a
+    leaf are as exact a question as any other; the power differences b^(k+1) - a^(k+1) cancel almost completely"""
+    from deeprob.spn.structure.node import Sum, Product
+    off = float(rs.choice([-3e4, -1e3, 1e2, 1e3, 3e4]))
+
+    def iso(v):
+        nb = int(rs.randint(1, 5))
+        w = rs.choice([0.01, 0.05, 0.5], size=nb) if rs.rand() < 0.5 else np.full(nb, float(rs.choice([0.01, 0.1])))
+        br = off + np.concatenate([[0.0], np.cumsum(w)])
+        d = rs.rand(nb) + 0.1
+        return Isotonic(v, densities=(d / d.sum()).tolist(), breaks=br.tolist())
+
+    def uni(v):
+        return Uniform(v, start=off + float(rs.uniform(-1, 1)), width=float(rs.choice([0.01, 0.1, 2.0])))
+    l0 = [iso(0), iso(0)] if rs.rand() < 0.6 else [iso(0), uni(0)]
+    w = rs.dirichlet(np.ones(2)).astype(np.float32)
+    s0 = Sum(children=l0, weights=(w / w.sum()).astype(np.float32))
+    if rs.rand() < 0.5:
+        return s0
+    return Product(children=[s0, uni(1) if rs.rand() < 0.5 else iso(1)])
+
+
+def one_case(ctx, k, root=None):
+    rs = np.random.RandomState(np_seed(ctx.sub_rng('net', k, root is not None)))
     nv = int(rs.randint(1, 5))
     scope = [int(v) for v in rs.permutation(nv)]            # root scope {0..n-1} in any order
     kinds = KINDS[k % len(KINDS)]
-    root = S.rand_spn(rs, scope, depth=int(rs.randint(0, 4)), kinds=kinds, share=float(rs.choice([0.0, 0.4])), clt=False)
+    if root is None:
+        root = S.rand_spn(rs, scope, depth=int(rs.randint(0, 4)), kinds=kinds, share=float(rs.choice([0.0, 0.4])), clt=False)
+    else:
+        ctx.count('far-offset-narrow-support-circuits')
     if getattr(root, 'children', None):
         assign_ids(root)
     else:
@@ -131,6 +157,11 @@ def one_case(ctx, k):
         ku = float(c4) / float(var) ** 2 - 3.0
         # error propagation: numerator cancellation and the variance in the denominator (relative error of var amplified by 1.5 / 2)
         rel_var = cond_tol([m2, m1 ** 2], var) / float(var)
+        if rel_var >= 0.25:
+            # m2 - m1^2 cancels (almost) completely in the precision the raw moments are reported in (float32): standardised moments
+            # computed from them carry no information, whatever the formula (far-offset narrow distributions)
+            ctx.count('derived-statistics-ill-conditioned-not-compared')
+            continue
         tol_s = cond_tol([m3, 3 * m1 * m2, 2 * m1 ** 3], c3) / sd ** 3 + abs(sk) * 1.5 * rel_var + 1e-5
         tol_k = cond_tol([m4, 4 * m1 * m3, 6 * m1 ** 2 * m2, 3 * m1 ** 4, 4 * m1 ** 4, 8 * m1 ** 2 * m2, m2 ** 2], c4) / float(var) ** 2 + (abs(ku) + 3) * 2 * rel_var + 1e-5
         ctx.count('derived-statistics-compared')
@@ -210,6 +241,11 @@ def run(ctx):
         one_case(ctx, k)
         if ctx.n_new(with_input_only=True) >= 3:
             break
+    for k in range(40 if ctx.tier == 'quick' else 600):
+        rs = np.random.RandomState(np_seed(ctx.sub_rng('offset', k)))
+        one_case(ctx, k, root=offset_root(rs))
+        if ctx.n_new(with_input_only=True) >= 3:
+            break
 
 
 _run_core = run
@@ -221,6 +257,9 @@ def run(ctx):
         from harness.common import run_demo
         run_demo(ctx, 'demo_tr3.py', [1 + ctx.seed], 'c19-code-vs-generated-vs-model',
                  'moment / leaf_moment vs generated definitions vs model', env_extra=dict(DEMO_SECTIONS='d'))
+        if ctx.n_new() == 0:
+            run_demo(ctx, 'demo_leaves.py', [20260929 + ctx.seed], 'c19-leaf-families-vs-model',
+                     'leaf pdf / cdf / ppf / moments / modes / sampling law of every univariate family against the exact leaf theory (LeafQ)')
 
 
 def replay(rep):
